@@ -95,10 +95,15 @@ def battery(run, minecraft, C, utility, tag, pair_stride=1, rng=None,
             b = order[ib]
             e = ia < ib
             eq = ia == ib
-            got = (utility.protocol_earlier(a, b),
-                   utility.protocol_earlier_eq(a, b),
-                   ca.protocol_earlier(b), ca.protocol_earlier_eq(b),
-                   ca.protocol_later(b), ca.protocol_later_eq(b))
+            try:
+                got = (utility.protocol_earlier(a, b),
+                       utility.protocol_earlier_eq(a, b),
+                       ca.protocol_earlier(b), ca.protocol_earlier_eq(b),
+                       ca.protocol_later(b), ca.protocol_later_eq(b))
+            except Exception as e:
+                tv('order/raised', 'comparing two known protocol versions '
+                   'raised', {'a': a, 'b': b, 'error': repr(e)})
+                return order
             exp = (e, e or eq, e, e or eq, (not e) and not eq, not e)
             pairs += 1
             if got != exp:
@@ -137,7 +142,12 @@ def battery(run, minecraft, C, utility, tag, pair_stride=1, rng=None,
         for (i, j, k) in sample:
             a, b, c = order[i], order[j], order[k]
             triples += 1
-            got = ctxs[a].protocol_in_range(b, c)
+            try:
+                got = ctxs[a].protocol_in_range(b, c)
+            except Exception as e:
+                tv('order/raised', 'protocol_in_range raised',
+                   {'self': a, 'start': b, 'end': c, 'error': repr(e)})
+                break
             if got != (j <= i < k):
                 tv('order/in_range', 'protocol_in_range disagrees',
                    {'self': a, 'start': b, 'end': c, 'got': got})
@@ -255,7 +265,12 @@ def run(run):
         # new protocol numbers must be constructible into a context and compare
         for (_w, vid, proto, sup) in hist:
             ctx = C.ConnectionContext(protocol_version=proto)
-            if not ctx.protocol_later_eq(0) or ctx.protocol_earlier(proto):
+            try:
+                wrong = not ctx.protocol_later_eq(0) or \
+                    ctx.protocol_earlier(proto)
+            except Exception:
+                wrong = True
+            if wrong:
                 run.violation('order/extended-basic', 'a run-time added '
                               'version does not compare correctly',
                               {'proto': proto})
